@@ -2,6 +2,7 @@ import Driver.C11
 import Driver.C16
 import Driver.C01
 import Driver.C06
+import Driver.C12
 import Driver.C08
 import Driver.C18
 import Driver.C09
@@ -38,6 +39,8 @@ def dispatch (prop : String) (c obs : String) : String × String × Bool :=
   | "C08" => C08.run c obs
   | "C01" => C01.run c obs
   | "C04" => C01.run c obs
+  | "C12" => C12.run c obs
+  | "C20e2e" => C12.run c obs
   | "C06" => C06.run c obs
   | "C06sev" => let m := C06.runSev c; (m, if m == obs then "ok" else "severity-differs-from-the-classifier-model", m == obs)
   | "C14" => C14.runSched c obs
